@@ -11,6 +11,7 @@
 
 #include <tao/pegtl.hpp>
 #include <tao/pegtl/contrib/remove_first_state.hpp>
+#include <tao/pegtl/contrib/control_action.hpp>
 #include <tao/pegtl/contrib/uint8.hpp>
 #include <tao/pegtl/must_if.hpp>
 #include <tao/pegtl/contrib/check_bytes.hpp>
@@ -385,6 +386,8 @@ namespace T
    template< typename Rule > struct mon2;
    template< typename A > using w_action_sw = p::action< act_odd, A >;
    template< typename A > using w_control_sw = p::control< mon2, A >;
+   template< typename Rule > struct fam_alt;
+   template< typename A > using w_action_famalt = p::action< fam_alt, A >;  // the action<> rule switching to the alternative attachment family
    template< typename A > using w_action_alt = p::action< p::nothing, A >;
    template< typename A > using w_control_alt = p::control< p::normal, A >;
    template< typename A > using w_raw1 = p::raw_string< '[', '=', ']', A >;
@@ -456,6 +459,7 @@ namespace T
    A0( EVERYTHING, G_ATOM2, ( p::everything ) ) \
    A0( ISTRING_AB, G_ATOM2, ( p::istring< 'a', 'b' > ) ) \
    A0( RAISE_MSG, G_EXC, ( raise_msg ) ) \
+   A0( TC_RN_MSG, G_EXC, ( p::try_catch_raise_nested< raise_msg > ) ) \
    A0( THOLE, G_EXC, ( p::seq< thole< I > > ) ) \
    A0( DISCARD, G_ATOM2, ( p::discard ) ) \
    A0( REQUIRE2, G_ATOM2, ( p::require< 2 > ) ) \
@@ -638,6 +642,7 @@ namespace T
    U1( IF_APPLY, G_ACT, w_if_apply ) \
    U1( ACTION_SW, G_ACT, w_action_sw ) \
    U1( CONTROL_SW, G_STATE, w_control_sw ) \
+   U1( ACTION_FAMALT, G_STATE, w_action_famalt ) \
    A0( APPLY, G_ACT, ( p::apply< rule_action > ) ) \
    A0( APPLY0, G_ACT, ( p::apply0< rule_action0 > ) ) \
    U1( STATE, G_STATE, w_state ) \
@@ -994,6 +999,12 @@ namespace T
       static constexpr int v = -5;
       static constexpr int kind = RK_RAISE;
    };
+   template<>
+   struct rid< raise_msg >  // raise_message<>: a rule that raises by definition
+   {
+      static constexpr int v = -5;
+      static constexpr int kind = RK_RAISE;
+   };
    template< typename... R >
    struct rid< pi::disable< R... > >
    {
@@ -1092,6 +1103,7 @@ namespace T
       std::string c03_msg, c03_hook;
       int c06 = 0;
       std::string c06_msg, c06_info;
+      bool raise_in_rematch = false;  // a raise() happened while a rematch / minus table rule was open
       long rewinds_after_consume = 0;  // vacuity counter: failures under M=required after the cursor had moved
       void reset()
       {
@@ -1100,6 +1112,7 @@ namespace T
          all_acts.clear();
          frames.clear();
          c02 = c04 = c03 = c06 = 0;
+         raise_in_rematch = false;
          c02_msg.clear();
          c04_msg.clear();
          c03_msg.clear();
@@ -1242,6 +1255,18 @@ namespace T
       return "internal rule";
    }
 
+   // cursor of whatever a hook is handed as "input" (raise_nested passes a position object when no input is at hand)
+   template< typename X >
+   auto cur_of( const X& x, int ) -> decltype( x.current() )
+   {
+      return x.current();
+   }
+   template< typename X >
+   const char* cur_of( const X&, long )
+   {
+      return g_begin;
+   }
+
    template< typename Rule, bool WithUnwind, bool AllEnabled >
    struct mon_base : p::normal< Rule >
    {
@@ -1250,7 +1275,7 @@ namespace T
       template< typename In >
       static void log( uint8_t t, const In& in, int aux = 0 )
       {
-         if( L.record_events ) L.ev.push_back( { t, int16_t( rid< Rule >::v ), uint8_t( rid< Rule >::kind ), uint8_t( enable ), 0, 0, int32_t( in.current() - g_begin ), aux } );
+         if( L.record_events ) L.ev.push_back( { t, int16_t( rid< Rule >::v ), uint8_t( rid< Rule >::kind ), uint8_t( enable ), 0, 0, int32_t( cur_of( in, 0 ) - g_begin ), aux } );
       }
       template< typename In, typename... St >
       static void start( const In& in, St&&... )
@@ -1270,6 +1295,8 @@ namespace T
       template< typename In, typename... St >
       [[noreturn]] static void raise( const In& in, St&&... st )
       {
+         for( const auto& f : L.frames )
+            if( f.kind == RK_NODE && ( tab[ f.rule ].op == REMATCH || tab[ f.rule ].op == REMATCH3 || tab[ f.rule ].op == MINUS ) ) L.raise_in_rematch = true;
          log( E_RAISE, in );
          p::normal< Rule >::raise( in, st... );
       }
@@ -1572,6 +1599,37 @@ namespace T
    template< unsigned I >
    struct act_boolmix< node< I > > : std::conditional_t< I % 2 == 0, act_bool< node< I > >, act_bool0< node< I > > >
    {};
+
+   // family 20: every table rule's action derives from control_action - control hooks (start / success / failure / unwind) at
+   // the action level; they must be called for every attempt of the rule, whatever the apply mode
+   inline long ca_counts[ K ][ 4 ];
+   template< typename Rule >
+   struct act_ctl : p::nothing< Rule >
+   {};
+   template< unsigned I >
+   struct act_ctl< node< I > > : p::control_action
+   {
+      template< typename In, typename... St >
+      static void start( const In&, St&&... ) noexcept
+      {
+         ++ca_counts[ I ][ 0 ];
+      }
+      template< typename In, typename... St >
+      static void success( const In&, St&&... ) noexcept
+      {
+         ++ca_counts[ I ][ 1 ];
+      }
+      template< typename In, typename... St >
+      static void failure( const In&, St&&... ) noexcept
+      {
+         ++ca_counts[ I ][ 2 ];
+      }
+      template< typename In, typename... St >
+      static void unwind( const In&, St&&... ) noexcept
+      {
+         ++ca_counts[ I ][ 3 ];
+      }
+   };
 
    // ------------------------------------------------------------------ attachments by rule id (families >= 8)
    // One constexpr table drives both the action classes given to the implementation and the reference.
